@@ -84,6 +84,38 @@ def replay(ctx, path, cmd="auth-replay", sig_prefix="replay:auth", describe=None
     return rows, stats
 
 
+def trace_authorize(ctx, path, limit, name):
+    """impl -> spec: authorize() of up to `limit` exported programs is recorded (hook H2: one event per
+    evaluated check / policy alternative with the trusted origins used) and validated by TLC against
+    the step-wise authorization of AuthorizerTrace.tla."""
+    import random
+    rnd = random.Random(ctx.seed)
+    cases = vlib.read_ndjson(path)
+    if len(cases) > limit:
+        cases = rnd.sample(cases, limit)
+    sub = os.path.join(ctx.work, name + ".progs.ndjson")
+    with open(sub, "w") as f:
+        for c in cases:
+            f.write(json.dumps(c) + "\n")
+    trace = os.path.join(ctx.work, name + ".trace.ndjson")
+    p = vlib.vh("auth-record", sub, trace)
+    ok, states, rej = vlib.trace_validate("AuthorizerTrace", "AuthorizerTrace.cfg", trace, ctx.work, name=name + ".trace", timeout=3000)
+    nev = sum(1 for _ in open(trace))
+    ctx.cov["states"] += states
+    ctx.cov["transitions"] += states
+    ctx.cov["traces_validated_against_impl"] += len(cases)
+    ctx.cov["replayed"]["trace:" + name] = {"programs": len(cases), "events": nev, "accepted": ok}
+    vlib.log("[%s] AuthorizerTrace %s: %d programs, %d events, %s" % (ctx.prop, name, len(cases), nev, "accepted" if ok else "REJECTED"))
+    if not ok:
+        ev = rej.get("event", {}) if rej else {}
+        kind = ev.get("ev", "?") if isinstance(ev, dict) else "?"
+        what = ev.get("what", "") if isinstance(ev, dict) else ""
+        ctx.finding("trace:AuthorizerTrace:%s%s" % (kind, (":" + what) if what else ""),
+                    "event %s is not a step of the spec's authorization: %s" % (rej.get("index") if rej else "?", json.dumps(ev)[:250]),
+                    {"kind": "auth-trace", "trace": trace, "rejected": rej})
+    return ok
+
+
 def replay_file(prop, path, cmd_default="auth-replay"):
     d = json.load(open(path))
     rp = d["replay"]
